@@ -36,6 +36,7 @@ class Ref(object):
         self.outcomes = {}     # tid -> ["ok", v] | ["exc", key]
         self.defs = {}         # tid -> (task, scope) created by "mk", not yet evaluated
         self.order = []        # tids in evaluation (sequential start) order
+        self.ystructs = {}
         self.probe_value = "sync-ok"   # what a plain synchronous call of an @asynq() function gives inside a body
         n = prog.get("nsv", 2)
         self.init_scope = {"sv": {i: ["init", i] for i in range(n)}, "attr": {i: ["init-attr", i] for i in range(n)}}
@@ -65,8 +66,11 @@ class Ref(object):
         tid = t["id"]
         for st in body:
             op = st["op"]
-            if op == "yield":
-                o = self.struct(st["y"], scope)
+            if op in ("yield", "reyield"):
+                if op == "yield":
+                    self.ystructs[(tid, st.get("yid"))] = st["y"]
+                # yielding the same object again is, sequentially, evaluating the same (memoised) futures again
+                o = self.struct(self.ystructs[(tid, st["yid"])] if op == "reyield" else st["y"], scope)
                 if o[0] == "exc":
                     if not st["catch"]:
                         raise _Exc(o[1])
@@ -116,6 +120,8 @@ class Ref(object):
                 raise _Result()
             elif op == "probe":
                 got.append(["probe", self.probe_value])
+            elif op == "cancel":
+                pass
             elif op == "mk":
                 self.defs[st["task"]["id"]] = (st["task"], {"sv": dict(scope["sv"]), "attr": dict(scope["attr"])})
             else:
@@ -154,7 +160,7 @@ class Ref(object):
                 return ["exc", ["item", s[4]]]
             if act == "unset":
                 return ["exc", "AssertionError"]
-            return ["exc", ["flush", act[1], act[2]]]
+            return ["exc", act[1]]
         if tag == "ditem":
             return ["ok", s[2]]
         if tag == "const":
